@@ -1,0 +1,30 @@
+//go:build verif
+
+package zkmodule
+
+// Contracts for the deductive checker in /verif (comment-only; compiled only under the verif tag).
+//
+// Fiat-Shamir binding: prover and verifier absorb the statement and then the commitment under their labels and
+// extract the challenge from exactly that transcript state; Verify accepts only if the proof's challenge equals
+// the extracted one AND the sigma protocol accepts (statement, a, e, z); on success both continue from the same
+// transcript state (response absorbed).
+
+//@ pure func absorbedXA(t0 V, x V, a V) V = tapp(tapp(t0, statementLabel, list(x.Bytes())), commitmentLabel, list(a.Bytes()))
+
+//@ func Verify
+//@   property C08
+//@   let tr = ctx.Transcript()
+//@   let t2 = absorbedXA(tsc(tr), statement, proof.a)
+//@   let n = protocol.GetChallengeBytesLength()
+//@   ensures (ctx == nil || protocol == nil || proof == nil) ==> err != nil
+//@   ensures err == nil ==> bytesEq(textract(t2, challengeLabel, n), proof.e) && protocol.Verify(statement, proof.a, textract(t2, challengeLabel, n), proof.z) == nil
+//@   ensures err == nil ==> tsc(tr) == tapp(tcont(t2, challengeLabel, n), responseLabel, list(proof.z.Bytes()))
+
+//@ func Prove
+//@   property C08
+//@   let tr = ctx.Transcript()
+//@   let t2 = absorbedXA(tsc(tr), statement, commitment)
+//@   let n = protocol.GetChallengeBytesLength()
+//@   ensures err == nil ==> result != nil && result.a == commitment && result.e == textract(t2, challengeLabel, n)
+//@   ensures err == nil ==> res(protocol.ComputeProverResponse(statement, witness, commitment, state, result.e), 1) == nil && result.z == res(protocol.ComputeProverResponse(statement, witness, commitment, state, result.e), 0)
+//@   ensures err == nil ==> tsc(tr) == tapp(tcont(t2, challengeLabel, n), responseLabel, list(result.z.Bytes()))
